@@ -16,7 +16,8 @@ global size_of usize == 8;
 //@include prelude/path_spec.rs
 //@item src/pwl/impl_infeasible_elim.rs | struct PerformanceCounter | no-debug
 
-//@include prelude/lp_oracle_spec.rs
+//@include prelude/tol_spec.rs
+//@include prelude/lp_oracle_tol_spec.rs
 //@include prelude/reach_spec.rs
 
 impl Polytope {
